@@ -27,7 +27,7 @@ type c15Pin struct {
 
 type c15Stats struct {
 	mustPinned, mustGone, dontCare, purgeChecks, purgeObligations, terminated, massExpiries int64
-	maxTable                                                                  int64
+	maxTable                                                                                int64
 }
 
 // c15History drives one table from one goroutine.
